@@ -10,6 +10,7 @@ import (
 	"testing"
 	"testing/synctest"
 	"time"
+	"unsafe"
 
 	"github.com/verily-src/fhirpath-go/fhirpath"
 	"github.com/verily-src/fhirpath-go/fhirpath/compopts"
@@ -248,21 +249,21 @@ func (c *compiled) compileTailIntact() bool {
 	if len(c.tail) != 2 {
 		return true
 	}
-	saved := parser.VerifWrap
-	parser.VerifWrap = nil
-	defer func() { parser.VerifWrap = saved }()
+	// by identity, without calling into the library again (an extra Compile here would itself
+	// change the history that other checks are looking at)
+	want := compileSentinels()
 	for k := 0; k < 2; k++ {
-		ok := false
-		func() {
-			defer func() { _ = recover() }()
-			_, err := fhirpath.Compile(fmt.Sprintf("zsfn%d()", k), c.tail[k])
-			ok = err == nil
-		}()
-		if !ok {
+		if ifaceData(c.tail[k]) != ifaceData(want[k]) {
 			return false
 		}
 	}
 	return true
+}
+
+// ifaceData returns the data word of an interface value. An option is a one-word struct holding
+// a func value, so the data word identifies the option value (the closure object).
+func ifaceData[T any](v T) unsafe.Pointer {
+	return (*[2]unsafe.Pointer)(unsafe.Pointer(&v))[1]
 }
 
 func (c *compiled) ok() bool { return c.err == nil && c.panic == "" && (c.fp != nil || c.pp != nil) }
